@@ -22,6 +22,7 @@ type Effect struct {
 type modRoot struct {
 	T types.Type
 	V *Val
+	A *Addr // the argument is an interior address (&x.f): effects apply to the object x, path f
 }
 
 var reModTok = regexp.MustCompile(`^([A-Za-z_][A-Za-z_0-9]*)|^\.\*\*|^\.\*|^\.([A-Za-z_][A-Za-z_0-9]*)|^\[\*\]`)
@@ -29,6 +30,20 @@ var reModTok = regexp.MustCompile(`^([A-Za-z_][A-Za-z_0-9]*)|^\.\*\*|^\.\*|^\.([
 // modEffects resolves a modifies path such as "s.size", "s.dense[*]", "state.*" into heap-family effects.
 func (g *Gen) modEffects(path string, root func(string) (modRoot, bool), st *State) []Effect {
 	rest := strings.TrimSpace(path)
+	if strings.HasPrefix(rest, "family ") {
+		// whole heap family by name (any object): e.g. "family H:nfa.BacktrackerState.Longest"
+		fam := strings.TrimSpace(rest[7:])
+		var out []Effect
+		for _, df := range sortedKeys(g.declFam) {
+			if df == fam || (strings.HasPrefix(df, fam) && strings.ContainsAny(df[len(fam):len(fam)+1], ".#[")) {
+				out = append(out, Effect{Fam: df, Sort: g.famSort[df]})
+			}
+		}
+		if len(out) == 0 {
+			g.pendingFamMods = append(g.pendingFamMods, fam)
+		}
+		return out
+	}
 	m := reModTok.FindStringSubmatch(rest)
 	if m == nil || m[1] == "" {
 		oos("bad modifies path %q", path)
@@ -46,6 +61,14 @@ func (g *Gen) modEffects(path string, root func(string) (modRoot, bool), st *Sta
 	var curT types.Type = cur.T
 	curV := cur.V
 	inObj := false
+	if cur.A != nil && cur.A.K == aHeap && len(cur.A.AIdx) == 0 {
+		objFam = cur.A.Fam
+		r := cur.A.Ref
+		objRef = &r
+		fieldPath = cur.A.Path
+		curT = cur.A.T
+		inObj = true
+	}
 	for rest != "" {
 		m := reModTok.FindStringSubmatch(rest)
 		if m == nil {
@@ -283,6 +306,11 @@ func (g *Gen) frameFormula(fam string, now Term) (Term, bool) {
 	var excl []Term
 	g.n++
 	r := Term{fmt.Sprintf("r!%d", g.n), SInt}
+	for _, pf := range g.pendingFamMods {
+		if fam == pf || (strings.HasPrefix(fam, pf) && strings.ContainsAny(fam[len(pf):len(pf)+1], ".#[")) {
+			return Term{}, false
+		}
+	}
 	for _, e := range g.modEffectsOfContract() {
 		if e.Fam == fam {
 			if e.Target == nil {
@@ -820,6 +848,13 @@ func (g *Gen) argVal(a ssa.Value, con *Contract, names []string, i int) Val {
 			}
 			for _, m := range con.Modifies {
 				if strings.HasPrefix(m, name+".") || strings.HasPrefix(m, name+"[") || m == name {
+					if ad.K == aHeap && len(ad.AIdx) == 0 {
+						if g.pendingArgAddrs == nil {
+							g.pendingArgAddrs = map[string]*Addr{}
+						}
+						g.pendingArgAddrs[name] = ad
+						continue
+					}
 					oos("interior address passed to %s which modifies through parameter %s", shortKey(con.Key), name)
 				}
 			}
@@ -833,6 +868,8 @@ func (g *Gen) argVal(a ssa.Value, con *Contract, names []string, i int) Val {
 
 func (g *Gen) applyContract(con *Contract, names []string, args []Val, resT types.Type, label string) Val {
 	st := g.st
+	addrs := g.pendingArgAddrs
+	g.pendingArgAddrs = nil
 	bind := map[string]Val{}
 	for i, n := range names {
 		if i < len(args) {
@@ -853,6 +890,9 @@ func (g *Gen) applyContract(con *Contract, names []string, args []Val, resT type
 		v, ok := bind[name]
 		if !ok {
 			return modRoot{}, false
+		}
+		if a, ok := addrs[name]; ok {
+			return modRoot{T: v.T, A: a}, true
 		}
 		return modRoot{T: v.T, V: &v}, true
 	}
